@@ -563,7 +563,8 @@ func ExecParse(op M) (res any) {
 		if d1 == nil {
 			return M{"class": c1}
 		}
-		before := js(parseCanon(DocJ(d1)))
+		whole := func(d *sbom.Document) string { return uuidRe.ReplaceAllString(js(DocJ(d)), "<uuid>") }
+		before := whole(d1)
 		if len(d1.NodeList.Nodes) > 0 {
 			first := d1.NodeList.Nodes[0]
 			rest := &sbom.NodeList{Nodes: d1.NodeList.Nodes[1:]}
@@ -578,7 +579,7 @@ func ExecParse(op M) (res any) {
 		if d2 == nil {
 			return M{"class": "doc", "second": c2}
 		}
-		return M{"class": "doc", "same": js(parseCanon(DocJ(d2))) == before}
+		return M{"class": "doc", "same": whole(d2) == before}
 	case "layouts":
 		return layoutsVerdict(b)
 	case "parse":
